@@ -2,6 +2,7 @@ package main
 
 import (
 	"context"
+	"errors"
 	"fmt"
 	"net"
 	"strings"
@@ -51,6 +52,49 @@ func (purePort) exec(f []string) []string {
 			return []string{"rload absent"}
 		}
 		return []string{"rload ok " + hexs(v)}
+	case "isany": // isany <tree> <targets: deny|end|comma-separated ids> : the classifier behind IsDeny/IsEnd on an error value of any shape
+		e, rest := buildErr(f[1])
+		if rest != "" || e == nil {
+			return []string{"bad-op isany"}
+		}
+		var matches []error
+		switch f[2] {
+		case "deny", "end":
+			before := e.Error()
+			fresh, _ := buildErr(f[1])
+			classify := mqtt.IsDeny
+			if f[2] == "end" {
+				classify = mqtt.IsEnd
+			}
+			// other classifications of the same value come first, as an application would do
+			mqtt.IsEnd(e)
+			mqtt.IsDeny(e)
+			got := classify(e)
+			if want := classify(fresh); got != want || e.Error() != before {
+				return []string{fmt.Sprintf("isany %v, on an untouched copy %v: the error value was modified by classifying it", got, want)}
+			}
+			return []string{fmt.Sprintf("isany %v", got)}
+		default:
+			for _, t := range strings.Split(f[2], ",") {
+				matches = append(matches, leafErr(atoi(t)))
+			}
+		}
+		before := e.Error()
+		got := mqtt.VerifNonNilIsAny(e, matches)
+		mqtt.IsDeny(e)
+		mqtt.IsEnd(e)
+		if again := mqtt.VerifNonNilIsAny(e, matches); again != got || e.Error() != before {
+			return []string{fmt.Sprintf("isany %v then %v: the error value was modified by classifying it", got, again)}
+		}
+		// the standard library's own reading of the same question
+		std := false
+		for _, m := range matches {
+			std = std || errors.Is(e, m)
+		}
+		if got != std {
+			return []string{fmt.Sprintf("isany %v errors.Is=%v", got, std)}
+		}
+		return []string{fmt.Sprintf("isany %v", got)}
 	case "strcheck": // strcheck <hex>
 		return []string{"strcheck " + denyClass(mqtt.VerifStringCheck(string(unhex(f[1]))))}
 	case "topiccheck":
@@ -121,3 +165,103 @@ func patternBytes(n int) []byte {
 	}
 	return patternBuf[:n:n]
 }
+
+// Error values for the `isany` operation. Leaves 1..7 are the exported sentinels, 10..16 the deny sentinels, anything
+// else a fresh comparable value per identifier.
+var leafCache = map[int]error{}
+
+func leafErr(id int) error {
+	names := map[int]string{10: "errPacketMax", 11: "errStringMax", 12: "errUTF8", 13: "errNull", 14: "errZero", 15: "errSubscribeNone", 16: "errUnsubscribeNone"}
+	switch id {
+	case 1:
+		return mqtt.ErrClosed
+	case 2:
+		return mqtt.ErrCanceled
+	case 3:
+		return mqtt.ErrAbandoned
+	case 4:
+		return mqtt.ErrDown
+	case 5:
+		return mqtt.ErrSubmit
+	case 6:
+		return mqtt.ErrBreak
+	case 7:
+		return mqtt.ErrMax
+	}
+	if n, ok := names[id]; ok {
+		return mqtt.VerifErrors()[n]
+	}
+	if e, ok := leafCache[id]; ok {
+		return e
+	}
+	e := fmt.Errorf("leaf %d", id)
+	leafCache[id] = e
+	return e
+}
+
+type nilWrap struct{ id int }
+
+func (w *nilWrap) Error() string { return fmt.Sprintf("nilwrap %d", w.id) }
+func (w *nilWrap) Unwrap() error { return nil }
+
+// buildErr parses L<id> | N<id> | W(<tree>) | J(<tree>,<tree>,...) and returns the rest of the input.
+func buildErr(s string) (error, string) {
+	if s == "" {
+		return nil, s
+	}
+	num := func(t string) (int, string) {
+		k := 0
+		for k < len(t) && t[k] >= '0' && t[k] <= '9' {
+			k++
+		}
+		return atoi(t[:k]), t[k:]
+	}
+	switch s[0] {
+	case 'L':
+		id, rest := num(s[1:])
+		return leafErr(id), rest
+	case 'N':
+		id, rest := num(s[1:])
+		return &nilWrap{id}, rest
+	case 'W':
+		if len(s) < 2 || s[1] != '(' {
+			return nil, s
+		}
+		c, rest := buildErr(s[2:])
+		if c == nil || rest == "" || rest[0] != ')' {
+			return nil, s
+		}
+		return fmt.Errorf("wrapped: %w", c), rest[1:]
+	case 'J':
+		if len(s) < 2 || s[1] != '(' {
+			return nil, s
+		}
+		var cs []error
+		rest := s[2:]
+		for {
+			if rest != "" && rest[0] == ')' {
+				rest = rest[1:]
+				break
+			}
+			c, r := buildErr(rest)
+			if c == nil {
+				return nil, s
+			}
+			cs = append(cs, c)
+			rest = r
+			if rest != "" && rest[0] == ',' {
+				rest = rest[1:]
+			}
+		}
+		if len(cs) == 0 {
+			return &emptyJoin{}, rest
+		}
+		return errors.Join(cs...), rest
+	}
+	return nil, s
+}
+
+type emptyJoin struct{}
+
+func (*emptyJoin) Error() string   { return "empty join" }
+func (*emptyJoin) Unwrap() []error { return nil }
